@@ -7,15 +7,28 @@ line against `git -C /repo log`)."""
 import sys, os, re, json, shutil, subprocess
 A=sys.argv[1].rstrip('/'); props=sys.argv[2].split(','); files=sys.argv[3:]
 V='/verif'
+BASE=os.environ.get('MERGE_BASE')
 for f in files:
     src=os.path.join(A,f); dst=os.path.join(V,f)
     if not os.path.exists(src): print('MISSING',f); continue
     os.makedirs(os.path.dirname(dst),exist_ok=True)
     if os.path.isdir(src):
         shutil.copytree(src,dst,dirs_exist_ok=True)
+        print('copied',f); continue
+    base=None
+    if BASE and os.path.exists(dst):
+        r=subprocess.run(['git','-C',V,'show',BASE+':'+f],capture_output=True)
+        if r.returncode==0: base=r.stdout
+    if base is not None and open(dst,'rb').read()!=base and open(src,'rb').read()!=base:
+        # both sides changed since the base: 3-way merge
+        bp='/tmp/_merge_base'; open(bp,'wb').write(base)
+        r=subprocess.run(['git','merge-file','-p',dst,bp,src],capture_output=True)
+        open(dst,'wb').write(r.stdout)
+        print('merged3',f,'CONFLICTS=%d'%r.returncode if r.returncode else '')
+    elif base is not None and open(src,'rb').read()==base:
+        print('unchanged-by-agent',f)
     else:
-        shutil.copy2(src,dst)
-    print('copied',f)
+        shutil.copy2(src,dst); print('copied',f)
 def section(s,pid):
     i=s.find('### %s — as built'%pid)
     if i<0: return None,None
@@ -37,7 +50,12 @@ for pid in props:
         vm=vm.replace(mv.group(0),ma.group(0)) if mv else vm.replace('CHECKS = {\n','CHECKS = {\n'+ma.group(0),1)
         print('manifest',pid)
     before={k['signature'] for k in vk['known'] if k['property']==pid}
-    vk['known']=[k for k in vk['known'] if k['property']!=pid]+[k for k in ak['known'] if k['property']==pid]
+    keep=[]
+    if BASE:
+        bk=json.loads(subprocess.run(['git','-C',V,'show',BASE+':known_findings.json'],capture_output=True,text=True).stdout)
+        bs={k['signature'] for k in bk['known'] if k['property']==pid}; asg={k['signature'] for k in ak['known'] if k['property']==pid}
+        keep=[k for k in vk['known'] if k['property']==pid and k['signature'] not in bs and k['signature'] not in asg]  # added in /verif since the base
+    vk['known']=[k for k in vk['known'] if k['property']!=pid]+[k for k in ak['known'] if k['property']==pid]+keep
     after={k['signature'] for k in vk['known'] if k['property']==pid}
     print('known',pid,'removed',sorted(before-after),'added',sorted(after-before))
     for line in ak['fixed']:
